@@ -71,7 +71,7 @@ class Pool:
 
     def add_replacement(self, src, img):
         """Register replace(., {src: image}); img = ("term", g) | ("scale", k, g) | ("sum", g, h) |
-        ("prod", g, h) with terminals of src's shape (prod: g scalar).  Adds, for every base
+        ("prod", g, h) with terminals of src's shape (prod: g scalar) | ("const", k).  Adds, for every base
         environment e, an environment in which src has the value its image has in e."""
         if not hasattr(self, "replmaps"):
             self.replmaps = []
@@ -92,6 +92,8 @@ class Pool:
                     tab[c] = base[img[1]][c] + base[img[2]][c]
                 elif img[0] == "prod":
                     tab[c] = base[img[1]][()] * base[img[2]][c]
+                elif img[0] == "const":  # a number (scalar src) or that number in every component; 0: a zero tensor
+                    tab[c] = Cx.of(img[1])
             env[src] = tab
             self.values.append(env)
             self.nenv += 1
@@ -290,6 +292,11 @@ class JetPool(Pool):
             return self.values[E][sd][c]
         if sd[0] == "comp":
             return self.values[E][sd[2]][()] if tuple(c) == tuple(sd[1]) else 0
+        if sd[0] == "comps":  # {component: scalar direction terminal}
+            for comp, name in sd[1]:
+                if tuple(c) == tuple(comp):
+                    return self.values[E][name][()]
+            return 0
         if sd[0] == "prod":  # scalar a times b (user-supplied coefficient derivative times direction)
             return self.values[E][sd[1]][()] * self.values[E][sd[2]][c]
         if sd[0] == "dprod":  # gradient of (a * b): a * grad_b[c] + b * grad_a[c]   (a, b scalars)
